@@ -116,6 +116,12 @@ package common
 //@   ensures [S2-utxo-in-ledger] err == nil && result0 != nil ==> LedgerHasTx(recv, hash) && index < LedgerOutCount(recv, hash) && result0.Type == LedgerOutType(recv, hash, index)
 //@   -- C01: a read returns THE amount and asset of the output stored under (hash, index): reads of one store value are deterministic
 //@   ensures [S11-utxo-fn] err == nil && result0 != nil ==> val(result0.Amount) == StoreAmount(recv, hash, index) && result0.Asset == StoreAsset(recv, hash, index)
+//@   -- C02: likewise THE key list (as values) and THE script of that output
+//@   ensures [S12-utxo-keys-fn] err == nil && result0 != nil ==> len(result0.Keys) == StoreKeyCount(recv, hash, index) &&
+//@       (forall j int :: 0 <= j && j < len(result0.Keys) ==> *result0.Keys[j] == StoreKeyVal(recv, hash, index, j)) &&
+//@       (ScriptOK(result0.Script) ==> result0.Script[2] == StoreThreshold(recv, hash, index))
+//@   -- C02: the record is decoded from bytes on every read (storage: UnmarshalUTXO): its key objects are new and pairwise distinct objects
+//@   ensures [S13-utxo-fresh] err == nil && result0 != nil ==> PtrDistinct(result0.Keys) && (forall j int :: 0 <= j && j < len(result0.Keys) ==> fresh(result0.Keys[j]))
 
 //@ assume func (s TransactionReader) ReadTransaction(hash)
 //@   modifies nothing
@@ -151,6 +157,7 @@ package common
 //@ func validateUTXO
 //@   property C05, C02
 //@   requires utxo != nil && keySigs != nil && 0 <= index && 0 <= offset
+//@   requires [c02-disjoint] forall j int :: 0 <= j && j < len(utxo.Keys) ==> !has(keySigs, utxo.Keys[j])
 //@   modifies keySigs[..]
 //@   ensures [nokeys] utxo.Type != OutputTypeScript && utxo.Type != OutputTypeNodeRemove ==> len(keySigs) == old(len(keySigs))
 //@   ensures [types] result == nil ==> utxo.Type == OutputTypeScript || utxo.Type == OutputTypeNodeRemove ||
@@ -169,10 +176,10 @@ package common
 //@   ensures [c02-agg] result == nil && SignedType(utxo.Type) && as != nil && NoWrap(offset, utxo.Keys) ==> SignersOK(as.Signers) && ScriptOK(utxo.Script) &&
 //@       (exists lo, n int :: {Witness2(lo, n)} Witness2(lo, n) && AggWindow(as.Signers, lo, n, offset, offset + len(utxo.Keys)) && n >= utxo.Script[2] &&
 //@           (forall j int :: lo <= j && j < lo + n ==> has(keySigs, utxo.Keys[as.Signers[j] - offset])))
-//@   -- what happens to the other entries of keySigs: nothing is removed; entries of keys that are not keys of this output are unchanged
-//@   ensures [c02-keeps] forall p *crypto.Key :: old(has(keySigs, p)) ==> has(keySigs, p)
-//@   ensures [c02-others] forall p *crypto.Key :: (forall j int :: 0 <= j && j < len(utxo.Keys) ==> p != utxo.Keys[j]) ==>
-//@       (has(keySigs, p) <==> old(has(keySigs, p))) && keySigs[p] == old(keySigs[p])
+//@   -- what happens to the other entries of keySigs: the keys of this output are not yet collected (they are new objects: [c02-disjoint],
+//@   -- established by validateInputs), so every earlier entry is kept with its signature; every new entry is an existing object
+//@   ensures [c02-kept] forall p *crypto.Key :: old(has(keySigs, p)) ==> has(keySigs, p) && keySigs[p] == old(keySigs[p])
+//@   ensures [c02-dom] forall p *crypto.Key :: has(keySigs, p) ==> old(has(keySigs, p)) || allocated(p)
 //@   hint return [win] NoWrap(offset, utxo.Keys) ==> AggWindow(as.Signers, rangeindex_0 + 1 - signers, signers, offset, offset + len(utxo.Keys))
 //@   hint return [run] forall j int :: rangeindex_0 + 1 - signers <= j && j < rangeindex_0 + 1 ==> has(keySigs, utxo.Keys[as.Signers[j] - offset])
 //@   hint return [wit] Witness2(rangeindex_0 + 1 - signers, signers) -- names the witness (lo, n) of [c02-agg] for the solver (Witness2 is constantly true)
@@ -180,15 +187,13 @@ package common
 //@   loop 0 invariant [c02-before] forall j int :: 0 <= j && j < rangeindex + 1 - signers ==> as.Signers[j] < offset
 //@   loop 0 invariant [c02-run] forall j int :: rangeindex + 1 - signers <= j && j <= rangeindex ==>
 //@       offset <= as.Signers[j] && as.Signers[j] < offset + len(utxo.Keys) && has(keySigs, utxo.Keys[as.Signers[j] - offset])
-//@   loop 0 invariant [c02-keeps] forall p *crypto.Key :: old(has(keySigs, p)) ==> has(keySigs, p)
-//@   loop 0 invariant [c02-others] forall p *crypto.Key :: (forall j int :: 0 <= j && j < len(utxo.Keys) ==> p != utxo.Keys[j]) ==>
-//@       (has(keySigs, p) <==> old(has(keySigs, p))) && keySigs[p] == old(keySigs[p])
+//@   loop 0 invariant [c02-kept] forall p *crypto.Key :: old(has(keySigs, p)) ==> has(keySigs, p) && keySigs[p] == old(keySigs[p])
+//@   loop 0 invariant [c02-dom] forall p *crypto.Key :: has(keySigs, p) ==> old(has(keySigs, p)) || allocated(p)
 //@   loop 1 invariant [c02-seen] forall i uint16 :: visited(sigs[index], i) ==> i < len(utxo.Keys) && has(keySigs, utxo.Keys[i])
 //@   loop 1 invariant [c02-seen-sig] PtrDistinct(utxo.Keys) ==> forall i uint16 :: visited(sigs[index], i) ==> keySigs[utxo.Keys[i]] == sigs[index][i]
 //@   loop 1 invariant [c02-len] len(sigs[index]) == old(len(sigs[index]))
-//@   loop 1 invariant [c02-keeps] forall p *crypto.Key :: old(has(keySigs, p)) ==> has(keySigs, p)
-//@   loop 1 invariant [c02-others] forall p *crypto.Key :: (forall j int :: 0 <= j && j < len(utxo.Keys) ==> p != utxo.Keys[j]) ==>
-//@       (has(keySigs, p) <==> old(has(keySigs, p))) && keySigs[p] == old(keySigs[p])
+//@   loop 1 invariant [c02-kept] forall p *crypto.Key :: old(has(keySigs, p)) ==> has(keySigs, p) && keySigs[p] == old(keySigs[p])
+//@   loop 1 invariant [c02-dom] forall p *crypto.Key :: has(keySigs, p) ==> old(has(keySigs, p)) || allocated(p)
 
 //@ spec InputKey(in *Input) string = fmt.Sprintf2("%s:%d", iface(in.Hash.String()), iface(in.Index))
 //@ spec InLedger(s any, in *Input) bool = LedgerHasTx(s, in.Hash) && 0 <= in.Index && in.Index < LedgerOutCount(s, in.Hash)
@@ -196,8 +201,9 @@ package common
 //@ spec SignedType(t mathint) bool = t == OutputTypeScript || t == OutputTypeNodeRemove
 
 //@ func (tx *SignedTransaction) validateInputs
-//@   property C05, C01
+//@   property C05, C01, C02
 //@   requires tx != nil && store != nil && InputsOK(&tx.Transaction)
+//@   requires [c02-preexisting] SigMapsExist(tx) -- typing: the signature maps reachable from the argument exist before the call
 //@   modifies nothing
 //@   ensures [filter] UtxoMapOK(result0)
 //@   ensures [keys] err == nil && PlainInputs(&tx.Transaction) ==> forall i int :: 0 <= i && i < len(tx.Inputs) ==> has(result0, InputKey(tx.Inputs[i]))
@@ -218,6 +224,24 @@ package common
 //@       len(tx.Inputs[k].Genesis) == 0 &&
 //@       (tx.Inputs[k].Mint != nil ==> val(result1) == val(tx.Inputs[k].Mint.Amount)) &&
 //@       (tx.Inputs[k].Mint == nil ==> tx.Inputs[k].Deposit != nil && val(result1) == val(tx.Inputs[k].Deposit.Amount))
+//@   -- C02, per-input signature maps: for every input k that spends a script / node-remove output and every index i of its signature map,
+//@   -- i is a key index of that output and the submitted signature is valid for key i over `hash` (BatchVerify said so); the number of
+//@   -- distinct indices reaches the output's threshold
+//@   ensures [c02-batch] err == nil && tx.AggregatedSignature == nil ==> forall k int, i uint16 :: 0 <= k && k < len(tx.Inputs) && OrdInputs(&tx.Transaction) &&
+//@       SignedType(InputUtxoType(store, tx.Inputs[k])) && has(tx.SignaturesMap[k], i) ==> i < InKeyCount(store, tx.Inputs[k]) &&
+//@       crypto.SigOK(seq(InKeyVal(store, tx.Inputs[k], i)), seq(hash), seq(*tx.SignaturesMap[k][i]))
+//@   ensures [c02-threshold] err == nil && tx.AggregatedSignature == nil && OrdInputs(&tx.Transaction) ==> forall k int :: 0 <= k && k < len(tx.Inputs) &&
+//@       SignedType(InputUtxoType(store, tx.Inputs[k])) ==> k < len(tx.SignaturesMap) && SigCount(tx.SignaturesMap[k]) >= InThreshold(store, tx.Inputs[k])
+//@   loop 0 invariant [c02-keys-old] forall p *crypto.Key :: has(keySigs, p) ==> allocated(p)
+//@   loop 0 invariant [c02-oldmaps] forall k int :: 0 <= k && k < len(tx.SignaturesMap) ==> !fresh(tx.SignaturesMap[k])
+//@   loop 0 invariant [c02-sigs] tx.AggregatedSignature == nil ==> forall k int, i uint16 :: 0 <= k && k <= rangeindex &&
+//@       SignedType(InputUtxoType(store, tx.Inputs[k])) && has(tx.SignaturesMap[k], i) ==> i < InKeyCount(store, tx.Inputs[k]) &&
+//@       (exists p *crypto.Key :: {has(keySigs, p)} has(keySigs, p) && p != nil && allocated(p) && keySigs[p] == tx.SignaturesMap[k][i] && *p == InKeyVal(store, tx.Inputs[k], i))
+//@   loop 0 invariant [c02-thr] tx.AggregatedSignature == nil ==> forall k int :: 0 <= k && k <= rangeindex &&
+//@       SignedType(InputUtxoType(store, tx.Inputs[k])) ==> k < len(tx.SignaturesMap) && SigCount(tx.SignaturesMap[k]) >= InThreshold(store, tx.Inputs[k])
+//@   loop 1 invariant [c02-lens] len(keys) == len(sigs)
+//@   loop 1 invariant [c02-wit] Witness1(len(keys) - 1) -- (constant true) puts the index of the element appended last into the solver's term set
+//@   loop 1 invariant [c02-collected] forall p *crypto.Key :: visited(keySigs, p) ==> exists a int :: {Witness1(a)} Witness1(a) && 0 <= a && a < len(keys) && keys[a] == p && sigs[a] == keySigs[p]
 //@   loop 0 invariant [c01-ord] forall j int :: 0 <= j && j <= rangeindex ==> OrdInput(tx.Inputs[j])
 //@   loop 0 invariant [c01-sum] val(inputAmount) == SumIn(store, &tx.Transaction, rangeindex + 1)
 //@   loop 0 invariant [c01-asset] forall j int :: 0 <= j && j <= rangeindex ==> InputAssetIs(store, tx.Inputs[j], tx.Asset)
@@ -249,6 +273,7 @@ package common
 //@   requires ver != nil && store != nil && DecodedShape(ver) && snapTime >= CustodianGenesis(store)
 //@   requires [decoded] DecodedTx(&ver.SignedTransaction) -- proved for every decoded transaction by C06 (unmarshalVersionedTransaction)
 //@   requires [preexisting] OutsOK(&ver.Transaction) -- objects reachable from the argument exist before the call (typing)
+//@   requires [c02-preexisting] SigMapsExist(&ver.SignedTransaction) -- likewise the signature maps
 //@   -- frame: Validate caches sizes/hashes inside ver (and, through validateNodeRemove, the hash cache of a store-returned
 //@   -- transaction, which no caller can observe). Assumed, not checked (noframe): used by the C31 batch loop.
 //@   modifies ver.hash, ver.pmbytes, ver.validatedSize
